@@ -284,5 +284,5 @@ META = {
              "compact), hole placements are bounded by the pool size and found by an ordered scan that advances only to aligned upper ends, both migrations re-point every visited reservation and copy every closed block "
              "(including the last) before the old buffer is deleted, the sizing and packing loops are the same algorithm so the new buffer is exactly large enough, and the set is ordered by offset. "
              "The suite never fragments a pool; the rule sees the fallback path regardless.",
-    "note": "Does not decide the compaction arithmetic for all sizes/alignments, nor that bytes read back equal bytes written (value-level).",
+    "note": "Does not decide the compaction arithmetic for all sizes/alignments, nor that bytes read back equal bytes written (value-level). An outside dynamic probe of the unchanged tree (DESIGN 10.9, probes/P03) shows that this arithmetic IS wrong when live slices outlive their parent or after setAlignment (packed blocks need more cells than `reserved` counts: heap overflow); no rule here reports that.",
 }
